@@ -315,6 +315,33 @@ Section Phases.
     intros Hp Hfix Hf. unfold open_step. rewrite (plain_not_excl o j _ Hp), Hf, Hfix. cbn. rewrite orb_true_r. reflexivity.
   Qed.
 
+  (* the file is there, LARGER than recorded, and opened for the first time in this run: fix cuts it back to the recorded size,
+     reports `Size error` + `Fixed size`, counts one error recovered, and flags the file FIXED (so that file_post reports it
+     recovered and restores its time-stamp, file_post_at below); nothing else moves *)
+  Lemma open_larger_fix o pos j f s g :
+    plain o -> co_fix o = true -> fs_find (r_fs s) j (cf_name f) = Some g -> (cf_size f < ff_size g)%N ->
+    fl_opened (get_fl (r_flags s) (j, cf_name f)) = false ->
+    exists s4, open_step bs newino now o pos j f s = Some s4
+      /\ r_fs s4 = fs_put (r_fs s) j (mkFF (cf_name f) (cf_size f) now 0 (ff_inode g) (firstn (nblocks bs (cf_size f)) (ff_blocks g)))
+      /\ r_tags s4 = r_tags s ++ [tg K_ERR_SIZE [pos; j] [cf_name f]; tg K_FIXED_SIZE [pos; j] [cf_name f]]
+      /\ r_err s4 = r_err s + 1 /\ r_rec s4 = r_rec s + 1 /\ r_unrec s4 = r_unrec s /\ r_par s4 = r_par s
+      /\ fl_fixed (get_fl (r_flags s4) (j, cf_name f)) = true /\ fl_opened (get_fl (r_flags s4) (j, cf_name f)) = true
+      /\ fl_damaged (get_fl (r_flags s4) (j, cf_name f)) = fl_damaged (get_fl (r_flags s) (j, cf_name f))
+      /\ (forall k', k' <> (j, cf_name f) -> get_fl (r_flags s4) k' = get_fl (r_flags s) k').
+  Proof.
+    intros Hp Hfix Hf Hsz Hop. unfold open_step. rewrite (plain_not_excl o j _ Hp), Hf, (pl_synced o Hp), Hfix.
+    cbn [negb andb orb]. rewrite Hf. rewrite Hop. cbn [negb andb].
+    assert (E1 : N.eqb (ff_size g) (cf_size f) = false) by (apply N.eqb_neq; lia).
+    assert (E2 : (cf_size f <? ff_size g)%N = true) by (apply N.ltb_lt; exact Hsz).
+    rewrite E1. cbn [negb orb]. rewrite E2.
+    eexists. split; [reflexivity|].
+    cbn [r_fs r_tags r_err r_rec r_unrec r_par r_flags rs_flag rs_setfl rs_recov rs_tag rs_setfs rs_err].
+    split; [reflexivity|]. split; [rewrite <- app_assoc; reflexivity|]. split; [reflexivity|]. split; [reflexivity|]. split; [reflexivity|]. split; [reflexivity|].
+    rewrite !get_set_same. cbn [fl_fixed fl_opened fl_damaged fl_set_opened fl_set_fixed fl_set_unsynced].
+    split; [reflexivity|]. split; [reflexivity|]. split; [reflexivity|].
+    intros k' Hk. rewrite !get_set_other by exact Hk. reflexivity.
+  Qed.
+
   Lemma rs_flag_other s k g k' : k' <> k -> get_fl (r_flags (rs_flag s k g)) k' = get_fl (r_flags s) k'.
   Proof. intro H. unfold rs_flag, rs_setfl. cbn [r_flags]. apply get_set_other. exact H. Qed.
 
